@@ -271,13 +271,13 @@ class EditStream(HTMLHandlerBase):
         mc = ManifestContext(
             options=options, stream=current_stream, multi_period=None,
             manifest=default_manifest)
-        clear_adaptation_sets = [mc.video] + mc.audio_sets + mc.text_sets
+        clear_adaptation_sets = mc.periods[0].adaptationSets if mc.periods else []
         drmSelection = DrmSelection.from_string(','.join(DrmSystem.values()))
         enc_options = options.clone(drmSelection=drmSelection)
         mc = ManifestContext(
             options=enc_options, stream=current_stream, multi_period=None,
             manifest=default_manifest)
-        enc_adaptation_sets = [mc.video] + mc.audio_sets + mc.text_sets
+        enc_adaptation_sets = mc.periods[0].adaptationSets if mc.periods else []
         if 'fragment' in flask.request.args:
             layout = 'fragment.html'
         else:
